@@ -65,6 +65,36 @@ Theorem polars_inner_join_is_the_reference : forall d l r on st,
 Proof. intros d l r on st C F. apply (pl_compile_correct_proof d (Join l r on JInner) st C F). Qed.
 Print Assumptions polars_inner_join_is_the_reference.
 
+(* LEFT joins.  SQL: the WHERE predicates of the right operand go into the ON clause, a left row without
+   partner appears once and its right columns read NULL.  The theorem needs the right operand to have no
+   computed column: an inlined definition is evaluated on the NULL padding (coalesce(x, 0) gives 0 where the
+   reference pads NULL) - this is exactly the listed finding F37, and the catalogue's "constant column" rule
+   covers only literals.  Polars pads computed columns correctly: no such condition there. *)
+Theorem sql_left_join_is_the_reference : forall d l r on c,
+  compile (Join l r on JLeft) = Some c -> flat_ok (Join l r on JLeft) = true ->
+  sem_query d c = export_ref (do_join (sem_ref d l) (sem_ref d r) on JLeft).
+Proof. intros d l r on c C F. apply (sql_compile_correct_proof d (Join l r on JLeft) c C F). Qed.
+Print Assumptions sql_left_join_is_the_reference.
+
+Theorem polars_left_join_is_the_reference : forall d l r on st,
+  pl_compile d (Join l r on JLeft) = Some st -> pflat_ok d (Join l r on JLeft) = true ->
+  pl_export st = export_ref (do_join (sem_ref d l) (sem_ref d r) on JLeft).
+Proof. intros d l r on st C F. apply (pl_compile_correct_proof d (Join l r on JLeft) st C F). Qed.
+Print Assumptions polars_left_join_is_the_reference.
+
+(* F37 in the model: with a computed column on the right of a left join the SELECT does NOT denote the
+   reference table (the witness is replayed against the implementation by the probe of F37) *)
+Theorem left_join_computed_right_refuted : exists d l r on c,
+  compile (Join l r on JLeft) = Some c /\ sem_query d c <> export_ref (do_join (sem_ref d l) (sem_ref d r) on JLeft).
+Proof.
+  exists [("l"%string, [[VInt 1]; [VInt 2]]); ("r"%string, [[VInt 1]])],
+         (Source "l" [("a"%string, 1%N)]),
+         (Mutate (Source "r" [("b"%string, 2%N)]) [("y"%string, 3%N, EFn Op_coalesce [ECol 2%N; ELit (VInt 5)] false [] [])]),
+         (EFn Op_equal [ECol 1%N; ECol 2%N] false [] []).
+  eexists. split; [reflexivity|]. vm_compute. discriminate.
+Qed.
+Print Assumptions left_join_computed_right_refuted.
+
 (* non-vacuity: computed columns and filters on both sides, an inequality in the condition, a summarize after *)
 Example inner_join_example :
   let d := [("l"%string, [[VInt 1; VInt 10]; [VInt 2; VInt 20]; [VNull; VInt 30]; [VInt 2; VInt 40]]);
@@ -77,6 +107,8 @@ Example inner_join_example :
   let j := Join l r (EFn Op_bool_and [EFn Op_equal [ECol 1%N; ECol 4%N] false [] [];
                                       EFn Op_less_than [ECol 6%N; ECol 3%N] false [] []] false [] []) JInner in
   flat_ok j = true /\ pflat_ok d j = true
+  /\ flat_ok (Join l (Source "r" [("k2"%string, 4%N); ("z"%string, 5%N)]) (EFn Op_equal [ECol 1%N; ECol 4%N] false [] []) JLeft) = true
+  /\ pflat_ok d (Join l r (EFn Op_equal [ECol 1%N; ECol 4%N] false [] []) JLeft) = true
   /\ flat_ok (Summarize (GroupBy j [1%N] false) [("n"%string, 9%N, EFn Op_count_star [] false [] [])]) = true
   /\ f_rows (export_ref (sem_ref d j)) = [[VInt 2; VInt 20; VInt 21; VInt 2; VInt 5; VInt 10]; [VInt 2; VInt 40; VInt 41; VInt 2; VInt 5; VInt 10]]
   /\ option_map (fun c => f_rows (sem_query d c)) (compile j) = Some (f_rows (export_ref (sem_ref d j))).
